@@ -203,9 +203,25 @@ class Interp(Analyzer):
                     if len(arr) > 4 and arr[4] is not None:
                         return self.materialize(arr[5], '%s[%d]' % (arr[4], pos.k), st, frame)
                     return TOP
-                # unknown index: join of everything known, else default
+                # unknown index: join of the elements the index can select
                 if arr[3] is not None and not arr[2]:
                     return arr[3]
+                n_ = arr[1] if isinstance(arr[1], int) else None
+                if n_ is not None and n_ <= 96 and arr[2]:
+                    lo_, hi_ = st.lb(pos), st.ub(pos)
+                    lo_ = 0 if lo_ is None or lo_ < 0 else lo_
+                    hi_ = n_ - 1 if hi_ is None or hi_ > n_ - 1 else hi_
+                    els = []
+                    for i_ in range(lo_, hi_ + 1):
+                        e_ = arr[2].get(i_, arr[3])
+                        if e_ is None:
+                            els = None
+                            break
+                        els.append(e_)
+                    if els:
+                        j_ = self.join_values(els, st, len(arr) > 5 and arr[5] or None)
+                        if j_ is not None:
+                            return j_
                 ety = arr[5] if len(arr) > 5 else None
                 if ety in INT_RANGES:
                     return ('int', self.fresh(st, ety, None, None, 'elem'))
@@ -221,6 +237,53 @@ class Interp(Analyzer):
                 st.mem[key] = v
             return v
         return ('int', self.fresh(st, ety, None, None, 'elem'))
+
+    def join_values(self, vals, st, ety=None):
+        """state-free join of abstract values (used for reads at an unknown index)"""
+        first = vals[0]
+        if all(v == first for v in vals):
+            return first
+        k = first[0]
+        if any(v[0] != k for v in vals):
+            return None
+        if k == 'int':
+            los = [st.lb(v[1]) for v in vals]
+            his = [st.ub(v[1]) for v in vals]
+            sets = [st.values(v[1]) for v in vals]
+            ty = ety if ety in INT_RANGES else 'u64'
+            if all(x is not None for x in sets):
+                u = frozenset().union(*sets)
+                if len(u) <= MAX_SET:
+                    return self._from_set(st, ty, u)
+            return ('int', self.fresh(st, ty, None if None in los else min(los), None if None in his else max(his), 'sel'))
+        if k == 'bool':
+            return ('bool', B_UNK)
+        if k == 'adt':
+            if any(v[1] != first[1] for v in vals):
+                return None
+            vs = None if any(v[2] is None for v in vals) else frozenset().union(*[v[2] for v in vals])
+            keys = set()
+            for v in vals:
+                keys |= set(v[3])
+            fl = {}
+            for key in keys:
+                parts = [v[3][key] for v in vals if key in v[3]]
+                # a field of variant x is only meaningful for values that have that variant
+                holders = [v for v in vals if v[2] is None or key[0] in v[2]]
+                if len(parts) == len(holders) and parts:
+                    j = self.join_values(parts, st)
+                    if j is not None:
+                        fl[key] = j
+                    else:
+                        fl[key] = TOP
+                else:
+                    fl[key] = TOP
+            return ('adt', first[1], vs, fl, None, ())
+        if k == 'tuple':
+            if any(len(v[1]) != len(first[1]) for v in vals):
+                return None
+            return ('tuple', tuple(self.join_values([v[1][i] for v in vals], st) or TOP for i in range(len(first[1]))))
+        return None
 
     def write_elem(self, sr, idx, val, frame, st):
         base, off = sr[1], sr[2]
@@ -274,8 +337,10 @@ class Interp(Analyzer):
             cd = self.prog.consts.get(c['cdef'])
             if cd is not None and 'v' in cd:
                 return V_const(cd['v'])
-            # generic const parameter used as a value
-            nm = c['cdef']
+            if ty in INT_RANGES:
+                r_ = self.eval_assoc_const(c['cdef'], st, frame)
+                if r_ is not None:
+                    return r_
         s = c.get('s')
         if s is not None and frame is not None and s in frame.subst:
             v = self.const_usize(frame.subst[s], None)
@@ -287,6 +352,10 @@ class Interp(Analyzer):
                 return ('int', g)
         if 'promoted' in c:
             return self.eval_promoted(c, frame, st)
+        if 'cdef' in c and ty not in INT_RANGES and ty != 'bool':
+            r_ = self.eval_const_item(c['cdef'], frame, st)
+            if r_ is not None:
+                return r_
         ty2 = self.subst_ty(ty, frame)
         if ty2 in INT_RANGES or ty2 == 'bool':
             return self.materialize_fresh(ty2, 'c', st, frame)
@@ -312,6 +381,71 @@ class Interp(Analyzer):
         r = self.call_body(b, [], frame, st, {}, site='promoted', keep_frame=True)
         return r if r is not None else TOP
 
+    def eval_const_item(self, path, frame, st):
+        """abstract value of a `const` / `static` item of aggregate type: its initialiser body is interpreted
+        (the frame is kept alive: references into the constant are handed out)"""
+        b = self.prog.bodies.get(path)
+        if b is None:
+            return self.eval_assoc_const(path, st, frame)
+        if frame is None or frame.depth >= self.max_depth + 2:
+            return None
+        if b.blocks and len(b.blocks) > 400:
+            return None
+        hit = self._const_cache.get(path)
+        if hit is not None:
+            rv, envitems = hit
+            st.env.update(envitems)
+            return rv
+        # evaluate once in a dedicated frame whose id only depends on the item (constants are immutable)
+        saved = (self._site, self._ctr)
+        self._site, self._ctr = 'K:' + path, 0
+        try:
+            rv = self.call_body(b, [], frame, st, {}, site='const', keep_frame=True)
+        finally:
+            self._site, self._ctr = saved
+        pref = 'K:' + path
+        envitems = {k: v for k, v in st.env.items() if isinstance(k[0], str) and k[0].startswith(pref)}
+        from .absint import syms_of_value
+        sy = set()
+        syms_of_value(rv, sy)
+        for v_ in envitems.values():
+            syms_of_value(v_, sy)
+        if not sy and rv is not None:
+            self._const_cache[path] = (rv, envitems)
+        return rv
+
+    def eval_assoc_const(self, path, st, frame=None):
+        """`<T as Trait>::NAME` with T a type parameter: the set of values the workspace impls give to NAME"""
+        import re as _re
+        m = _re.match(r'^<.* as ([^<>]+(?:<.*>)?)>::([A-Z0-9_]+)$', path) or _re.match(r'^([A-Za-z0-9_:]+)::([A-Z0-9_]+)$', path)
+        if not m:
+            return None
+        trait, name = m.group(1).split('<')[0], m.group(2)
+        vals = set()
+        ty = None
+        for cp, cd in self.prog.consts.items():
+            if cd.get('kind', '').startswith('AssocConst') and cp.endswith('::' + name) and cp != path:
+                par = cd.get('parent', '')
+                if trait in par or (' as ' in cp and trait in cp):
+                    if 'v' in cd:
+                        vals.add(cd['v'])
+                        ty = cd['ty']
+                    else:
+                        # the impl is generic: interpret the initialiser (it must not depend on the parameters)
+                        b_ = self.prog.bodies.get(cp)
+                        if b_ is None or frame is None:
+                            return None
+                        r_ = self.call_body(b_, [], frame, st, {}, site='const')
+                        l_ = self.as_int(r_, st) if r_ is not None and r_[0] in ('int', 'bool') else None
+                        vs_ = st.values(l_) if l_ is not None else None
+                        if vs_ is None:
+                            return None
+                        vals |= set(vs_)
+                        ty = cd['ty']
+        if vals and ty in INT_RANGES:
+            return self._from_set(st, ty, vals)
+        return None
+
     def as_int(self, v, st, ty=None):
         if v[0] == 'int':
             return v[1]
@@ -330,8 +464,20 @@ class Interp(Analyzer):
         self._ctr += 1
         return '%s:%d' % (self._site, self._ctr)
 
-    def fresh(self, st, ty, lo=None, hi=None, hint='t'):
-        nm = '%s#%s' % (hint, self.nid())
+    def fresh(self, st, ty, lo=None, hi=None, hint='t', key=None):
+        if key is not None:
+            # value numbering: a pure operation on the same operands denotes the same value wherever it is computed
+            nm = 'vn:%s' % (key,)
+            if nm in st.lo or nm in st.hi:
+                # keep refinements already learned about this value; only tighten with the new bounds
+                tl, th = INT_RANGES.get(ty, (None, None))
+                try:
+                    st.set_bounds(nm, lo if lo is not None else tl, hi if hi is not None else th)
+                except Infeasible:
+                    raise
+                return Lin.sym(nm)
+        else:
+            nm = '%s#%s' % (hint, self.nid())
         st.lo.pop(nm, None)
         st.hi.pop(nm, None)
         st.sets.pop(nm, None)
@@ -374,6 +520,10 @@ class Interp(Analyzer):
     def _binop(self, op, a, b, ty, frame, st):
         """ty: operand type. returns value"""
         ty = self.subst_ty(ty, frame)
+        self._vnkey = None
+        la0, lb0 = self.as_int(a, st), self.as_int(b, st)
+        if la0 is not None and lb0 is not None:
+            self._vnkey = '%s(%r,%r)%s' % (op.replace('WithOverflow', '').replace('Unchecked', ''), la0, lb0, ty)
         if op in CMP:
             if ty == 'bool' or a[0] == 'bool' or b[0] == 'bool':
                 la, lb_ = self.as_int(a, st), self.as_int(b, st)
@@ -434,7 +584,7 @@ class Interp(Analyzer):
                         st.hi[nm] = hi
                         res = Lin.sym(nm)
                     else:
-                        res = None if (lo < tlo or hi > thi) else self.fresh(st, ty, lo, hi, 'mul')
+                        res = None if (lo < tlo or hi > thi) else self.fresh(st, ty, lo, hi, 'mul', key=self._vnkey)
                         if res is None:
                             res = self.fresh(st, ty)
                         return ('int', res)
@@ -459,9 +609,9 @@ class Interp(Analyzer):
             if lb_.is_const() and lb_.k > 0 and al is not None and au is not None and al >= 0:
                 if la.is_const():
                     return V_const(la.k // lb_.k)
-                return ('int', self.fresh(st, ty, al // lb_.k, au // lb_.k, 'div'))
+                return ('int', self.fresh(st, ty, al // lb_.k, au // lb_.k, 'div', key=self._vnkey))
             if None not in (al, au, bl, bu) and al >= 0 and bl > 0:
-                return ('int', self.fresh(st, ty, al // bu, au // bl, 'div'))
+                return ('int', self.fresh(st, ty, al // bu, au // bl, 'div', key=self._vnkey))
             if None not in (al, au, bl, bu) and bl > 0:
                 tr = lambda x, y: -((-x) // y) if x < 0 else x // y     # truncation toward zero
                 c_ = [tr(al, bl), tr(al, bu), tr(au, bl), tr(au, bu)]
@@ -475,7 +625,7 @@ class Interp(Analyzer):
                     return ('int', la)
                 return ('int', self.fresh(st, ty, 0, lb_.k - 1 if au is None else min(au, lb_.k - 1), 'rem'))
             if bl is not None and bl > 0 and bu is not None and al is not None and al >= 0:
-                return ('int', self.fresh(st, ty, 0, bu - 1, 'rem'))
+                return ('int', self.fresh(st, ty, 0, bu - 1, 'rem', key=self._vnkey))
             return ('int', self.fresh(st, ty))
         if base == 'BitAnd':
             va, vb = st.values(la), st.values(lb_)
@@ -493,15 +643,15 @@ class Interp(Analyzer):
             if None not in (al, au, bl, bu) and al >= 0 and bl >= 0:
                 hi = (1 << max(au, bu).bit_length()) - 1
                 lo = max(al, bl) if base == 'BitOr' else 0
-                return ('int', self.fresh(st, ty, lo, hi, 'or'))
+                return ('int', self.fresh(st, ty, lo, hi, 'or', key=self._vnkey))
             return ('int', self.fresh(st, ty))
         if base == 'Shr':
             if lb_.is_const() and al is not None and au is not None and al >= 0:
                 if la.is_const():
                     return V_const(la.k >> lb_.k)
-                return ('int', self.fresh(st, ty, al >> lb_.k, au >> lb_.k, 'shr'))
+                return ('int', self.fresh(st, ty, al >> lb_.k, au >> lb_.k, 'shr', key=self._vnkey))
             if al is not None and au is not None and al >= 0:
-                return ('int', self.fresh(st, ty, 0, au, 'shr'))
+                return ('int', self.fresh(st, ty, 0, au, 'shr', key=self._vnkey))
             return ('int', self.fresh(st, ty))
         if base == 'Shl':
             if lb_.is_const() and 0 <= lb_.k < 128 and au is not None and al is not None and al >= 0:
@@ -543,8 +693,23 @@ class Interp(Analyzer):
         lin = self.as_int(v, st)
         if lin is None:
             if v[0] == 'discr':
-                # enum -> integer cast of a discriminant read
+                # enum -> integer cast of a discriminant read: the declared discriminants of the possible variants
+                head, vs = v[2], v[3]
+                a = self.prog.adts.get(head) if head else None
+                if a is not None:
+                    idxs = vs if vs is not None else range(len(a['variants']))
+                    vals = {a['variants'][i]['discr'] for i in idxs if i < len(a['variants'])}
+                    lo_, hi_ = INT_RANGES[to_ty]
+                    if vals and all(lo_ <= x <= hi_ for x in vals):
+                        return self._from_set(st, to_ty, vals)
                 return ('int', self.fresh(st, to_ty, 0, 255, 'discr'))
+            if v[0] == 'adt' and v[1] in self.prog.adts and self.prog.adts[v[1]]['kind'] == 'Enum':
+                a = self.prog.adts[v[1]]
+                idxs = v[2] if v[2] is not None else range(len(a['variants']))
+                vals = {a['variants'][i]['discr'] for i in idxs if i < len(a['variants'])}
+                lo_, hi_ = INT_RANGES[to_ty]
+                if vals and all(lo_ <= x <= hi_ for x in vals):
+                    return self._from_set(st, to_ty, vals)
             return ('int', self.fresh(st, to_ty))
         lo, hi = INT_RANGES[to_ty]
         l, u = st.lb(lin), st.ub(lin)
@@ -975,7 +1140,7 @@ class Interp(Analyzer):
                     handled = True
             if handled:
                 pass
-            elif body is not None and frame.depth < self.max_depth and body.raw_path not in [f for f in frame.chain()[:1] if False] \
+            elif body is not None and (frame.depth < self.max_depth or (frame.depth < self.max_depth + 4 and self.is_small_leaf(body))) \
                     and frame.chain().count(body.path) == 0 and not body.coroutine:
                 subst = self.make_subst(body, c, frame)
                 res = self.call_body(body, args, frame, st, subst, site=t.sp)
@@ -1024,6 +1189,16 @@ class Interp(Analyzer):
                         found.append(b)
         r = found[0] if len(found) == 1 else None
         self._trait_cache[key] = r
+        return r
+
+    def is_small_leaf(self, body):
+        """tiny functions (accessors, const getters) are inlined beyond the depth bound: they cannot blow up the analysis"""
+        r = self._leaf.get(body.raw_path)
+        if r is None:
+            n = sum(1 for b in body.blocks if not b.cleanup)
+            calls = sum(1 for b in body.blocks if not b.cleanup and b.term.k == 'call')
+            r = n <= 8 and calls <= 2
+            self._leaf[body.raw_path] = r
         return r
 
     def trait_method_impls(self, trait, method):
@@ -1413,6 +1588,8 @@ def new_analyzer(prog, **kw):
     an.call_probes = {}
     an.lossy_casts = {}
     an._trait_cache = {}
+    an._leaf = {}
+    an._const_cache = {}
     an._frame_by_id = {}
     an.construct_checks = {}
     an.construct_recorders = {}
